@@ -156,6 +156,26 @@ Theorem C19_unlocked_by_id_reader_refuted :
 Proof. exact unlocked_by_id_reader_refuted. Qed.
 Print Assumptions C19_unlocked_by_id_reader_refuted.
 
+(* ---- shutdown.  Close() (as repaired) takes the write lock and writes nothing: in a schedule it is a
+   process exit at a step boundary, covered by C19_schedules_locked_env (EExit).  Closing the store
+   under a running writer (Close before the repair), or rewriting the tip records from the unlocked
+   memory fields, breaks the property after the restart: *)
+Theorem C19_close_refuted :
+  (let s := fst (run true wg0 (init wg0) [Add wg1]) in
+   boot_count_last (st (save_sub 2 s (mkG 3 2 1 0))) wg0 = Some (2, 2) /\
+   forall s', InvW wg0 s' -> (count s', gheight (last s')) <> (2, 2)) /\
+  (let s := fst (run true wg0 (init wg0) [Add wg1]) in
+   boot (st (remove_sub 1 s (last s))) wg0 = BootPanic) /\
+  (let s := fst (run true wg0 (init wg0) [Add wg1; Add (mkG 3 2 1 0)]) in
+   let c := count s in
+   let s' := fst (step true wg0 s RemoveLast) in
+   boot_count_last (close_writes c (gid (last s')) (st s')) wg0 = Some (3, 1) /\
+   forall s'', InvW wg0 s'' -> (count s'', gheight (last s'')) <> (3, 1)).
+Proof.
+  split; [exact close_inside_save_refuted|split; [exact close_inside_remove_refuted|exact close_stale_count_refuted]].
+Qed.
+Print Assumptions C19_close_refuted.
+
 (* ---- readers that do not take the lock (Count(), LastGroup()) ----
    Between operations Count() = LastGroup().GroupHeight + 1. *)
 Theorem C19_count_is_last_height_plus_one : forall P g0 s, InvP P g0 s -> count s = gheight (last s) + 1.
